@@ -498,6 +498,12 @@ class _OpCallable:
         self.label = "operator.%s%r" % (kind, tuple(args))
 
 
+class _Identity:
+    """a decorator that returns the function unchanged on the model (functools.lru_cache(...) / cache: the memoised
+    function computes the same values; whether the cache makes results history dependent is the statefx pass's question)"""
+    label = "identity decorator"
+
+
 class _Graph:
     """model of networkx.DiGraph (only what get_call_graph needs)"""
 
@@ -1045,6 +1051,8 @@ class Runner:
             except TypeError:
                 raise AnalysisError("model: sorted() over values without a concrete order")
             return [xs[i] for i in order]
+        if name == "hash" and len(args) == 1 and isinstance(args[0], int) and not isinstance(args[0], bool):
+            return hash(args[0])   # deterministic for integers (strings are salted per process: not evaluated)
         if name == "next" and args and isinstance(args[0], list):
             if args[0]:
                 return args[0][0]
@@ -1071,6 +1079,8 @@ class Runner:
                 if len(args) > 2:
                     return args[2]
                 raise Raised("AttributeError", e, nm)
+        if isinstance(callee, _Identity) and len(args) == 1:
+            return args[0]
         if name in ("methodcaller", "attrgetter", "itemgetter") and args and (name != "methodcaller" or isinstance(args[0], str)):
             return _OpCallable(name, args, kwargs)
         if isinstance(callee, _OpCallable) and len(args) == 1:
